@@ -49,6 +49,8 @@ enum Pre {
     None,
     Before,
     During,
+    /// the SOURCE file's modification time changes while the migration runs (its bytes do not)
+    Touch,
 }
 
 struct Case {
@@ -796,6 +798,16 @@ fn run_case(id: usize, c: &Case, root: &str, cli: Option<&str>, drops: &Drops) -
             }
         }));
     }
+    if c.pre == Pre::Touch {
+        let (flag, p) = (injected.clone(), src_path.clone());
+        feoxdb::verif::install(Box::new(move |_seq, ev| {
+            if ev.kind == "w" && !flag.swap(true, Ordering::SeqCst) {
+                if let Ok(f) = std::fs::OpenOptions::new().write(true).open(&p) {
+                    let _ = f.set_modified(std::time::SystemTime::now() + std::time::Duration::from_secs(7));
+                }
+            }
+        }));
+    }
     if let Some((at, mode)) = c.fault {
         feoxdb::verif::force_sync(true);
         feoxdb::verif::reset_io_calls();
@@ -854,7 +866,7 @@ fn run_case(id: usize, c: &Case, root: &str, cli: Option<&str>, drops: &Drops) -
             }
         }
     }
-    if c.pre == Pre::During {
+    if c.pre == Pre::During || c.pre == Pre::Touch {
         feoxdb::verif::uninstall();
     }
     let mut fault_hit = false;
@@ -865,7 +877,7 @@ fn run_case(id: usize, c: &Case, root: &str, cli: Option<&str>, drops: &Drops) -
     }
     // ---- what is on the file system now
     let pre_eff = match c.pre {
-        Pre::During if !injected.load(Ordering::SeqCst) => Pre::None, // the call failed before it wrote anything
+        Pre::During | Pre::Touch if !injected.load(Ordering::SeqCst) => Pre::None, // the call failed before it wrote anything
         p => p,
     };
     let after = list_dir(&dir);
@@ -874,11 +886,12 @@ fn run_case(id: usize, c: &Case, root: &str, cli: Option<&str>, drops: &Drops) -
     let src_same = src_now.len() == l0 && fnv(&src_now) == h0 && src_now == src.bytes;
     let dst_exists = std::fs::symlink_metadata(&dst_path).is_ok();
     let dst_bytes = if dst_exists { std::fs::read(&dst_path).unwrap_or_default() } else { Vec::new() };
-    let pre_same = pre_eff != Pre::None && dst_exists && dst_bytes == junk;
+    let pre_same = pre_eff != Pre::None && pre_eff != Pre::Touch && dst_exists && dst_bytes == junk;
     let pre_name = match pre_eff {
         Pre::None => "none",
         Pre::Before => "before",
         Pre::During => "during",
+        Pre::Touch => "touch",
     };
 
     let mut ev: Vec<Value> = Vec::new();
@@ -1075,6 +1088,7 @@ pub fn main(args: &[String]) -> i32 {
         match (i + seed as usize) % 3 {
             0 => cases.push(Case { src: s.clone(), allow: rng.random_bool(0.5), pre: Pre::Before, cli: false, fault: None }),
             1 => cases.push(Case { src: s.clone(), allow: true, pre: Pre::During, cli: false, fault: None }),
+            2 => cases.push(Case { src: s.clone(), allow: true, pre: Pre::Touch, cli: false, fault: None }),
             _ => {}
         }
         if !s.large && (i + seed as usize) % 4 == 2 && n_fault > 0 {
@@ -1097,7 +1111,7 @@ pub fn main(args: &[String]) -> i32 {
     let drops: Drops = Mutex::new(Vec::new());
     let results: Vec<Mutex<Option<Outcome>>> = (0..cases.len()).map(|_| Mutex::new(None)).collect();
     let next = AtomicUsize::new(0);
-    let alone = |c: &Case| c.pre == Pre::During || c.fault.is_some();
+    let alone = |c: &Case| c.pre == Pre::During || c.pre == Pre::Touch || c.fault.is_some();
     let par: Vec<usize> = (0..cases.len()).filter(|i| !alone(&cases[*i])).collect();
     std::thread::scope(|sc| {
         for _ in 0..threads.max(1) {
